@@ -72,7 +72,8 @@ def real_index(contigs, pos, lens, cs, workdir):
     root.array("variant_position", data=np.array(pos, dtype=min_int_dtype(min(pos), max(pos))), chunks=(cs,))
     root.array("variant_length", data=np.array(lens, dtype=min_int_dtype(min(lens), max(lens))), chunks=(cs,))
     w = vcz.VcfZarrWriter(path)
-    w.metadata = types.SimpleNamespace(dimension_separator="/")
+    # (the writer's own bookkeeping, consistent with the arrays: a rewrite may legitimately consult it)
+    w.metadata = types.SimpleNamespace(dimension_separator="/", schema=types.SimpleNamespace(variants_chunk_size=cs))
     w.create_index()
     out = zarr.open(str(path), mode="r")["region_index"][:]
     return [[int(x) for x in row] for row in out], str(out.dtype)
@@ -146,12 +147,28 @@ def pipeline_cases(ctx, work):
                                   small_coords=ctx.rng.random() < 0.7, long_refs=True)
         vcf = vcfgen.materialise(spec, pathlib.Path(work) / f"f{k}", kind="vcf.gz+tbi")
         cs = ctx.rng.choice([1, 3, 7, 1000])
-        for mode in ("oneshot", "distributed"):
+        for mode in ("oneshot", "distributed", "schema_file"):
             out = pathlib.Path(work) / f"out{k}_{mode}.zarr"
             icf = pathlib.Path(work) / f"icf{k}_{mode}"
             try:
                 vcf2zarr.explode(icf, [vcf], worker_processes=0)
-                if mode == "oneshot":
+                if mode == "schema_file":
+                    # the index follows the chunking of the position arrays themselves: here finer than the schema-wide size
+                    import io
+                    import json
+                    buf = io.StringIO()
+                    top = ctx.rng.choice([4, 6, 12])
+                    fine = ctx.rng.choice([d for d in (1, 2, 3) if top % d == 0])
+                    vcf2zarr.mkschema(icf, buf, variants_chunk_size=top)
+                    sch = json.loads(buf.getvalue())
+                    for f in sch["fields"]:
+                        if f["name"] in ("variant_contig", "variant_position", "variant_length"):
+                            f["chunks"][0] = fine
+                    sp = pathlib.Path(work) / f"schema{k}.json"
+                    sp.write_text(json.dumps(sch))
+                    vcf2zarr.encode(icf, out, schema_path=sp, worker_processes=0)
+                    cs = fine
+                elif mode == "oneshot":
                     vcf2zarr.encode(icf, out, variants_chunk_size=cs, worker_processes=0)
                 else:
                     s = vcf2zarr.encode_init(icf, out, target_num_partitions=3, variants_chunk_size=cs)
